@@ -1,11 +1,17 @@
 PART = {
   "C14": dict(
     imports=["Carquet.Properties.C14.Crc"],
-    obligations=["Carquet.Properties.C14.C14_poly_is_ieee"],
+    obligations=["Carquet.Properties.C14." + t for t in (
+        "C14_poly_is_ieee", "C14_table0_is_step8", "C14_impl_eq_spec", "C14_impl_update_eq_spec",
+        "C14_update_composes", "C14_update_composes_impl", "C14_update_assoc", "C14_bit_serial",
+        "C14_burst_detected", "C14_burst_detected_spec", "C14_burst_detected_xor",
+        "C14_four_bytes_detected", "C14_single_byte_detected", "C14_single_bit_detected")],
     components=["crc"],
     fidelity={"Impl.Crc32": "exact"},
     rule="crc: all lengths 0..257 (thorough 0..1025) x alignment x fill kind; all splits of strings <= 24 bytes + "
-         "random splits; distinct = distinct (op, input bytes)",
+         "random splits; crc_dmg: every single bit / every position of a solid and of a two-ends 32-bit burst in a "
+         "19-byte message, random bursts (any length, start, width 1..32) in messages up to 64 (thorough 300) bytes, "
+         "real checksum must change; distinct = distinct (op, input bytes)",
     assumptions=["little-endian host (memcpy loads)", "ARM hardware CRC path not compiled on this host"],
     trusted_base=["zlib crc32() as C-side oracle"],
   ),
